@@ -215,6 +215,7 @@ def run(ctx):
     L.set_workdir(ctx.workdir)
     ctraces = [L.run_composite(c) for c in ccases]
     judge(ctx, "composite", ccases, ctraces, cu)
+    folder_level(ctx)
     ctx.notes["explanation"] = ("TLC exhaustive on LogitsStore (%s) per layout space; every layout pair replayed on real PageLayout "
                                 "objects with real scipy sparse matrices through save_logits / save_logits_bytes / load_logits / "
                                 "get_dense_logits / get_full_logprobs and validated by LogitsStore_Trace; plus seeded operation "
@@ -222,8 +223,60 @@ def run(ctx):
     ctx.notes["universe"] = {"mats": {str(k): v for k, v in u["mats"].items()}, "dtypes": {str(k): v for k, v in u["dtypes"].items()}}
 
 
+def folder_level(ctx, only=None):
+    """spec/LogitsFolder.tla: parse_folder.Computator stores PAGE XML + logits per page id and a later run rebuilds every page
+    from the two folders; ids with dots, ids that are prefixes of each other"""
+    import itertools
+    from .. import lfolder_common as F
+    fc = {"MaxLen": 3, "Naming": "append", "MaxOps": 4 if ctx.tier == "quick" else 5}
+    if only is None:
+        ctx.tlc("LogitsFolder", constants=fc, invariants=["OwnArtefacts", "OneFilePerPage"], spec="Spec", label="LogitsFolder append naming")
+        ctx.tlc("LogitsFolder", constants=dict(fc, Naming="suffix", MaxOps=3), invariants=["OwnArtefacts"], spec="Spec",
+                expect_violation="OwnArtefacts", label="LogitsFolder suffix-replacing naming (self-test)")
+    ids = F.all_ids(3)
+    if only is not None:
+        cases = [only]
+    else:
+        cases = [{"pages": [a, b]} for a, b in itertools.permutations(ids, 2)]
+        rng = random.Random(ctx.seed * 31337 + 5)
+        cases += [{"pages": rng.sample(ids, 3)} for _ in range(60 if ctx.tier == "quick" else 1500)]
+        if ctx.tier == "quick":
+            cases = cases[::2] + [c for c in cases[1::2] if any("." in p for p in c["pages"])][::3]
+    F.set_workdir(ctx.workdir)
+    traces = [F.run_folder(c) for c in cases]
+    acc, rej = ctx.validate("LogitsFolder_Trace", traces, constants=dict(fc, MaxOps=100))
+    for c, tr in zip(cases, traces):
+        ctx.count(1, ("folder", tuple(tuple(p) for p in c["pages"])) if any("." in p for p in c["pages"]) else None)
+    if only is None:
+        ctx.sample({"folder": traces[len(traces) // 2]}, limit=8)
+    for idx, prog in rej:
+        tr = traces[idx]
+        names = [F.name_of(p) for p in tr["pages"]]
+        ev = tr["events"][prog] if prog < len(tr["events"]) else None
+        if tr["outcome"] != "ok":
+            sig, what = "folder:exception", "Computator raised (%s)" % tr["outcome"]
+        elif ev is not None and ev["op"] == "rebuild" and (ev["xml"] != ev["page"] or ev["logits"] != ev["page"]):
+            sig = "folder:foreign-artefacts"
+            what = "page %r was rebuilt from the PAGE XML of %r and the logits of %r" % (
+                F.name_of(ev["page"]), "".join(F.CONCRETE.get(t, t) for t in ev["xml"]), "".join(F.CONCRETE.get(t, t) for t in ev["logits"]))
+        else:
+            sig, what = "folder:rebuilt-output", "the rebuilt page differs from the first run: %s" % "; ".join(tr["notes"][:2])
+        ctx.violation({"case": {"folder": cases[idx]}, "trace": tr, "progress": prog}, sig,
+                      "pages %s stored by parse_folder.Computator then rebuilt from the xml + logits folders: %s; logits folder holds %s" % (
+                          names, what, tr.get("files")))
+    if only is None and not rej:
+        good = next(t for t in traces if t["outcome"] == "ok")
+        def corrupt(t):
+            t["events"][-1]["logits"] = t["events"][0]["page"] if t["events"][0]["page"] != t["events"][-1]["page"] else ["?"]
+            return t
+        ctx.selftest_corrupt("LogitsFolder_Trace", good, corrupt, constants=dict(fc, MaxOps=100))
+
+
 def replay(ctx, case):
     c = case["case"]
+    if "folder" in c:
+        folder_level(ctx, only=c["folder"])
+        return
     L.set_workdir(ctx.workdir)
     tr = L.run_composite(c) if "ids" in c else L.run_case(c)
     judge(ctx, "replay", [c], [tr], _u(c["universe"]))
